@@ -30,9 +30,17 @@ Evaluable(s, o) ==
     /\ o.op = "post" => (o.s \in Honest /\ Len(s.kp[o.s].outbox) > 0 /\ Head(s.kp[o.s].outbox).k \in KnownKinds)
     /\ o.op \in {"bcommit", "beval", "bacc", "bapol"} => o.s \in K
 
+(* map-iteration order of shiftPhases: an accusation queued in the same call as the previous eon's
+   vote may come before or after it *)
+RECURSIVE OldFirst(_)
+OldFirst(q) == IF Len(q) < 2 THEN q
+               ELSE IF q[1].k = "acc" /\ q[2].k = "old" THEN <<q[2], q[1]>> \o OldFirst(SubSeq(q, 3, Len(q)))
+               ELSE <<q[1]>> \o OldFirst(Tail(q))
+NormSt(st) == [st EXCEPT !.kp = [i \in K |-> [@[i] EXCEPT !.outbox = OldFirst(@)]]]
+
 SpecAllows(s, line) ==
     /\ Evaluable(s, line.op)
-    /\ LET x == ApplyOp(s, line.op) IN x.st = line.st /\ x.out = line.out
+    /\ LET x == ApplyOp(s, line.op) IN NormSt(x.st) = NormSt(line.st) /\ x.out = line.out
 
 (* pass B on the outcome: what the spec predicts from the last observed state *)
 FinAllowed(s, fin) ==
@@ -52,7 +60,7 @@ TNext ==
     /\ LET line == Trace[l] IN
        CASE line.k = "new" ->
               /\ pre' = line.st /\ g' = GhostInit
-              /\ drift' = drift \cup (IF [line.st EXCEPT !.ov = FALSE] = InitState THEN {} ELSE {l})
+              /\ drift' = drift \cup (IF [line.st EXCEPT !.ov = 0] = InitState THEN {} ELSE {l})
               /\ UNCHANGED viol
          [] line.k = "op" ->
               /\ pre' = line.st
